@@ -95,6 +95,14 @@ def tasks(tier):
         cfg = dict(M=2, alphabet=["ok", "x:T", "xsc:T", "xsc:S", "r:T", "x:P"], max_unknown=None, classifier_kind="falsy",
                    breaker={"threshold": thr, "window": 8, "recovery": 2, "trip_on": ["T", "S", "P"]})
         out.append({"family": "records-falsy-classifier", "cfg": cfg, "entry": e, "bound": 0, "ncalls": 2})
+    # on the virtual event loop with attempt_timeout_s: Task.cancel() between any two loop
+    # iterations, including while a timed-out attempt is still cleaning up
+    for e, uw in itertools.product(["AsyncPolicy.call", "AsyncPolicy.execute", "AsyncPolicy0.call"], [0, 1]):
+        cfg = dict(M=2 if "0" not in e else 1, alphabet=["ok", "x:T"], loop=True, attempt_timeout=2,
+                   durs=[0, 3], dur_free=True, inject=["cancel"], unwind_ticks=uw, sleeper="call",
+                   sleeper_async=True, max_unknown=None,
+                   breaker={"threshold": 1, "window": 8, "recovery": 2, "trip_on": ["T", "U", "P"]})
+        out.append({"family": "records-task-cancel", "cfg": cfg, "entry": e, "bound": 1, "ncalls": 1})
     # the final failure is a rejected None result
     for e, thr in itertools.product(WITH_RETRY, [1, 3]):
         cfg = dict(M=2, alphabet=["ok", "rn:T", "rn:P", "x:U", "r:T"], force_rc=True, max_unknown=None,
@@ -150,6 +158,9 @@ def _monitor_trace(trace, cfg):
                 v.append(("c09.record-count", "a call that never started was admitted "
                                               f"({allows[0][3]}) and made no breaker record"))
             continue
+        if (not allows and not records and not call.ops and call.end is not None
+                and call.end[1] == "raise" and call.end[2] == "CancelledError"):
+            continue   # the task was cancelled before its first step (virtual loop): never admitted
         if len(allows) != 1:
             v.append(("c09.allow-count", f"allow() consulted {len(allows)} times for one call"))
             continue
